@@ -276,11 +276,11 @@ def reload_list(rng, rules, per):
         elif kind == 'reorder':
             rng.shuffle(mine)
     out, seen = [], set()
-    for r in mine + rest:
+    for r in mine:
         if key(r) not in seen:
             seen.add(key(r))
             out.append(r)
-    return out
+    return out + rest       # (the rules of the other resources stay as they are, duplicates included)
 
 
 def with_reloads(rng, s, rules):
